@@ -56,6 +56,7 @@ def shapes():
         ("nested", I, {"r": "ok", "v": 3}),
         ("deferred", I, {"r": "rerr"}),
         ("nested", I, {"r": "rerr"}),
+        ("deferred", {"t": "nn", "of": {"t": "int", "scalar": "trim"}}, {"r": "ok", "v": "tonull"}),
         ("deferred", {"t": "nn", "of": I}, {"r": "rerr"}),
         ("sync", {"t": "nn", "of": I}, {"r": "rerr"}),
         ("deferred", {"t": "nn", "of": I}, {"r": "ok", "v": None}),
